@@ -58,6 +58,33 @@ pub fn rx_sub_mss(tier: Tier, depth: usize) -> Driver {
     d
 }
 
+/// Exactly as many in-order packets as the reassembly queue has slots, plus the FIN, handed over in
+/// one poll (a sender within the advertised window, a reader that is alive).
+pub fn rx_burst_fin(tier: Tier, segs: usize, depth: usize) -> Driver {
+    let mut d = rx(tier, segs, vec![MSS], depth);
+    d.name = format!("rx-burst-fin-{segs}seg");
+    let fin = Pkt::Fin { off: 0, ack: AckSpec::Cur };
+    d.alphabet = vec![
+        data(0),
+        Act::Deliver3(pdata(0), pdata(0), fin.clone()),
+        Act::Deliver3(pdata(0), fin.clone(), fin.clone()),
+        Act::Deliver2(pdata(0), fin.clone()),
+        Act::Deliver(fin),
+        Act::Read(64),
+        Act::Read(MSS),
+        Act::Tick,
+    ];
+    d
+}
+
+/// The peer's initial sequence number is 0 (and 1, 65535): "one before the peer's first packet" wraps.
+pub fn rx_peer_isn(tier: Tier, peer_isn: u16, depth: usize) -> Driver {
+    let mut d = rx(tier, 4, vec![MSS, 1], depth);
+    d.name = format!("rx-peer-isn{peer_isn}");
+    d.cfg.peer_isn = peer_isn;
+    d
+}
+
 /// Vectored reads: two buffers per call (either may be empty, the first may end inside a packet).
 pub fn rx_vectored(tier: Tier, depth: usize) -> Driver {
     let mut d = rx(tier, 4, vec![MSS, 3], depth);
@@ -939,6 +966,9 @@ pub fn all_drivers(tier: Tier) -> Vec<Driver> {
     v.push(rx_grown_mss(tier, 6));
     v.push(rx_empty_read(tier, 5));
     v.push(rx_vectored(tier, 5));
+    v.push(rx_peer_isn(tier, 0, 5));
+    v.push(rx_burst_fin(tier, 2, 5));
+    v.push(rx_burst_fin(tier, 3, 5));
     v.push(rx_sub_mss(tier, 5));
     v.push(rx_growing_mss(tier, 6));
     v.push(rx_reader_gone(tier, 6));
